@@ -16,7 +16,7 @@ from rustdefs import RustDefs
 from mirsym import Executor, State, PlaceRef, EnumV, BoxV, Agg, Model, Unsupported, bv, zand, zor, znot
 
 PROP = 'C06'
-EXPAND = ('FunctionBody', 'Statement', 'Block', 'Else', 'Vec', 'Poison', 'Error', 'Identifier')
+EXPAND = ('FunctionBody', 'Statement', 'Block', 'Else', 'Vec', 'Poison', 'Error', 'Identifier', 'Comparison')
 LEAF = {'Declaration': 'D', 'Assignment': 'A', 'MethodCall': 'M', 'Loop': 'L', 'Goto': 'G', 'Label': 'T'}
 CODES = {'NonFinalLoopStatement': 800, 'MisplacedLoopStatement': 801, 'MissingBraces': 840}
 
@@ -186,7 +186,7 @@ def wire(T, m, s):
 
 
 def run(tier):
-    depth, width = (4, 2) if tier == 'quick' else (5, 3)
+    depth, width = (4, 2) if tier == 'quick' else (5, 2)
     t0 = time.time()
     path, dump_s = mir_dump()
     dump = MirDump(path)
@@ -271,6 +271,16 @@ def run(tier):
     ask('placement-rules', zand(g, znot(zand(*ok))),
         'loop only as the final statement of a braced block (E800/E801); if-branches are goto or braced block, else may be another if (E840); nothing else changes')
 
+    # the lint clause forks on iterator positions: wide trees at depth 3, narrow ones (one statement per block) deeper
+    for ld, lw in ((3, width), (depth, 1)) if tier == 'quick' else ((3, width), (depth, 1), (4, 2)):
+        lint = lint_clause(T, dump, defs, ld, lw, ask_generic=None)
+        for q in lint['queries']:
+            q['name'] += '@depth%d,width%d' % (ld, lw)
+        queries += lint['queries']
+        pending += lint['pending']
+        solver_s += lint['solver_s']
+        exec_s += lint['exec_s']
+
     # native validation of the encoding on random statement trees
     rng = random.Random(seed() * 23 + 11)
 
@@ -347,6 +357,114 @@ def run(tier):
         log('VIOLATION property=%s replay=%s' % (PROP, rp))
         log('  ' + what)
     return 1 if out_v else 0
+
+
+def native_lint(lines):
+    replay.write_generated({})
+    binary, _ = replay.build()
+    rc, out, err = replay.run(binary, ['lint-tree-eval'], stdin='\n'.join(lines) + '\n')
+    if rc != 0:
+        raise Inconclusive('native lint evaluation failed: ' + err[-300:])
+    return out.split('\n')[:len(lines)]
+
+
+def loop_first_count(T, s):
+    """Number of braced if-branches inside statement s whose first statement is `loop` (16-bit term)."""
+    if s is None:
+        return C16(0)
+
+    def branch_hit(b):
+        if b is None:
+            return C16(0)
+        items, ln = T.block_of(b)
+        if not items or items[0] is None:
+            return C16(0)
+        return z3.If(zand(T.is_(b, 'Block'), ln != bv(0, 64), T.is_(items[0], 'Loop')), C16(1), C16(0))
+    total = C16(0)
+    t = T.then_of(s)
+    p, e = T.else_of(s)
+    if t is not None:
+        total = total + z3.If(T.is_(s, 'If'), branch_hit(t) + loop_first_count(T, t), C16(0))
+    if e is not None:
+        total = total + z3.If(zand(T.is_(s, 'If'), p), branch_hit(e) + loop_first_count(T, e), C16(0))
+    items, ln = T.block_of(s)
+    for i, x in enumerate(items or []):
+        if x is not None:
+            total = total + z3.If(zand(T.is_(s, 'Block'), z3.ULT(bv(i, 64), ln)), loop_first_count(T, x), C16(0))
+    return total
+
+
+def lint_clause(T, dump, defs, depth, width, ask_generic):
+    """L1800: exactly one lint per braced branch whose first statement is `loop`, and no other lint."""
+    import mirmodels
+    t0 = time.time()
+    d2 = depth
+    ex = Executor(dump, defs, loop_bound=width + 2)
+    ex.vec_input_slots = width
+    ex.havoc_patterns = [r'<(?:common::)?Expression as Lintable>::lint$', r'<(?:std::option::)?Option<.*> as Lintable>::lint$',
+                         r'<(?:common::)?Reference as Lintable>::lint$']
+    body = ex.fresh_value('alpha::common::FunctionBody', 'lbody', depth=d2, expand=lambda b: b in EXPAND)
+    hdr = [n for n in dump.function_names() if re.search(r'linter\.rs:\d+:\d+: \d+:\d+>::lint$', n)
+           and dump.get(n).params[0][1].endswith('FunctionBody')]
+    if len(hdr) != 1:
+        raise Inconclusive('<FunctionBody as Lintable>::lint not found in the MIR dump')
+    none = EnumV(defs.find_enum('Option'), bv(0, 64), {'None': ()})
+    nslots = 2 * (width + 2) ** d2
+    st = State()
+    st.mem[(0, 'linter')] = Agg([mirmodels.new_vec(min(nslots, 40), bv(0, 64), bv(0, 64)), none, none], 'Linter')
+    from mirsym import ValRef
+    try:
+        g, _ = ex.call_function(dump.get(hdr[0]), [ValRef(body), PlaceRef((0, 'linter'))], z3.BoolVal(True), st)
+    except Unsupported as e:
+        raise Inconclusive('cannot encode the statement linter: %s' % e)
+    exec_s = time.time() - t0
+    lints = st.mem[(0, 'linter')].fields[0]
+    nl = lints.f['len']
+    sdef = defs.find_struct('alpha::common::FunctionBody')
+    si = [f for f, _ in sdef.fields].index('statements')
+    vin = body.fields[si]
+    items_in, n_in = vin.f['items'].fields, vin.f['len']
+    expected = C16(0)
+    for i, x in enumerate(items_in):
+        if x is not None:
+            expected = expected + z3.If(z3.ULT(bv(i, 64), n_in), loop_first_count(T, x), C16(0))
+    edef = defs.find_enum('alpha::error::Error')
+    d_l1800 = edef.variant_by_name('LoopAsFirstStatement')[1]
+    others = zor(*[zand(z3.ULT(bv(k, 64), nl), it.discr != bv(d_l1800, 64)) for k, it in enumerate(lints.f['items'].fields)
+                   if it is not None])
+    obs = [og for _, og, _ in ex.obligations]
+    res = {'queries': [], 'pending': [], 'solver_s': 0.0, 'exec_s': exec_s}
+
+    def body_wire(m):
+        n = m.eval(n_in, model_completion=True).as_long()
+        return ' '.join(wire(T, m, items_in[i]) for i in range(n))
+
+    for qname, formula, text in [
+            ('lint-total', zor(znot(g), *obs), 'the statement linter returns for every statement tree within the bound, without panic'),
+            ('l1800-count', zand(g, z3.Extract(15, 0, nl) != expected),
+             'exactly one L1800 per braced if-branch whose first statement is loop'),
+            ('l1800-only', zand(g, others), 'statements raise no lint other than L1800')]:
+        s = z3.Solver()
+        s.add(*ex.assumptions)
+        s.add(formula)
+        t = time.time()
+        r = s.check()
+        dt = time.time() - t
+        res['solver_s'] += dt
+        if r == z3.unknown:
+            raise Inconclusive('z3 answered unknown on %s' % qname)
+        q = {'name': qname, 'result': str(r), 'seconds': round(dt, 3), 'statement': text}
+        res['queries'].append(q)
+        if r == z3.sat:
+            m = s.model()
+            line = body_wire(m)
+            got = native_lint([line])[0]
+            n_enc = m.eval(nl, model_completion=True).as_long()
+            q['counterexample'] = {'body': line, 'native': got, 'encoding_lints': n_enc}
+            if got.count('1800') != n_enc and qname != 'lint-total':
+                raise Inconclusive('lint counterexample [%s] does not reproduce natively: native %s, encoding %d lints' % (line, got, n_enc))
+            res['pending'].append((qname, text, line, got))
+    return res
 
 
 def bind(T, s, txt, cons):
